@@ -34,10 +34,32 @@ func ParseTime(value string) (Time, error) {
 	value = strings.TrimPrefix(value, "@T")
 	for _, l := range timeLayouts {
 		if t, err = time.Parse(l, value); err == nil {
-			return Time{t, layout(l)}, nil
+			t, l := keepFraction(t, layout(l))
+			return Time{t, l}, nil
 		}
 	}
 	return Time{}, fmt.Errorf("unable to parse time '%s': %w", value, err)
+}
+
+// keepFraction makes a fraction of a second that time.Parse accepted visible in the
+// layout. time.Parse reads fractional seconds after a seconds field even when the
+// layout has none ("10:00:00.5" parses with "15:04:05"), which left a value that
+// carries a fraction its string form and its precision do not show. The fraction
+// is kept to the millisecond, the step of the System types, and the layout becomes
+// the millisecond variant of l.
+func keepFraction(t time.Time, l layout) (time.Time, layout) {
+	if t.Nanosecond() == 0 {
+		return t, l
+	}
+	switch l {
+	case secondLayout:
+		l = millisecondLayout
+	case dtSecondLayout:
+		l = dtMillisecondLayout
+	case dtSecondLayoutTZ:
+		l = dtMillisecondLayoutTZ
+	}
+	return t.Add(-time.Duration(t.Nanosecond() % int(time.Millisecond))), l
 }
 
 // MustParseTime takes an input string and returns a Time object
